@@ -64,8 +64,8 @@ func genC20Plan(r *sim.Rng, tier string) C20Plan {
 	}
 	if sim.RaceEnabled {
 		p.Sched = sim.SchedParams{Free: true, MaxSteps: 60000, MaxSimSec: 3600, SegMode: r.Intn(2)}
-		if r.Bool(0.4) {
-			p.Sched.AlignTick = []float64{0.1, 0.3}[r.Intn(2)] // handlers that wake at the instant the tickers fire
+		if r.Bool(0.3) {
+			p.Sched.AlignTick = []float64{0.1, 0.2}[r.Intn(2)] // handlers that wake at the instant the tickers fire
 		}
 	} else {
 		p.Sched = GenSched(r.Fork("sched"), true)
